@@ -782,7 +782,7 @@ class NpyArray:
             raise ValueError('The array has been closed.')
 
         # Reset length
-        self.shape = (length, ) + self.shape[1:]
+        self.shape = (int(length), ) + self.shape[1:]
         self._prepare_header_data()
         # Write the header before shrinking the file so that the file stays loadable if the
         # process dies in between (seek flushes the buffered header bytes to the file)
